@@ -7,6 +7,7 @@ import random
 from ..core import Failure, Prop, Stream
 from ..gen import ExprGen, box_values, node_types, rand_env, size
 from ..oracles.pyeval import is_safe, outcome, pyeval, same_outcome
+from ..c02_streams import FreeNameStream, ProcHistStream
 from ..sexp import (A, dumps, env_to_sx, exc_to_sx, expr_to_sx, loads, sx_shrinks, sx_to_env,
                     sx_to_expr, value_to_sx)
 
@@ -560,10 +561,10 @@ class TableEvalStream(Stream):
 PROP = Prop(
     id="C02",
     title="Evaluation gives every node type its standard meaning",
-    lean_targets=["PV.Properties.C02", "PV.Properties.C02Table"],
+    lean_targets=["PV.Properties.C02", "PV.Properties.C02Table", "PV.Properties.C02Proc"],
     extractors=[extract],
     streams=[PyNumStream(), DenStream(), HistStream(), ArrayStream(), TableDispatchStream(),
-             TableEvalStream()],
+             TableEvalStream(), FreeNameStream(), ProcHistStream()],
     trusted_base=[
         "Lean 4.33 kernel; axioms propext, Classical.choice, Quot.sound only",
         "PyNum (lean/PV/Model/PyNum.lean): model of CPython int/bool/Fraction arithmetic, "
@@ -589,7 +590,13 @@ PROP = Prop(
                "re-read from the source (array_handler_current), arrays mean their entries in "
                "row-major order with the same shape (array_eq_den_current), the memoizing "
                "evaluator raises on them (array_cached_raises_current, known finding); arrays "
-               "stream through the compiled table interpreter.",
+               "stream through the compiled table interpreter. Process histories (C02Proc): many "
+               "evaluator objects in one process - fresh entry points in differing environments and "
+               "long-lived instances - each return the meaning of their expression in their own "
+               "environment (process_history_eq_den, process_history_table_eq_den_current); "
+               "variables of any name (missing_var_reported, bound_var_value) and common "
+               "subexpressions of any scope (cse_any_scope_means_child); tied by the free-names and "
+               "process-history streams.",
     level_note="Trusted: Lean kernel (+ propext, Classical.choice, Quot.sound); PyNum as a model of "
                "CPython int/bool/Fraction arithmetic (validated exhaustively on a value box each "
                "run); the S-expression harness. Floats/complex/numpy scalars are outside the exact model "
